@@ -26,7 +26,7 @@ func main() {
 		return
 	}
 	ev.Main("C03", "fault_enumeration",
-		"seeded receive/remove histories over <=13 blobs (empty blob, duplicate receive, remove + re-receive in every history); the LAST op is crashed at every point: files = every prefix of its VFS call trace (plus cuts inside each Write) x {un-synced data kept, dropped, zeroed} on an in-memory crash-modelling VFS; diskpacked (leveldb, kv and sqlite metaIndex, maxFileSize 2000) = crash directories materialised from a real before/after snapshot diff (every prefix of the appended record for records <=256 B, else header boundaries +-2 and 16 body cuts; index before/after; with/without next pack on roll-over; every order-consistent and, counted separately, every power-loss subset of {header rewrite (also torn), body zeroing (prefixes), index row delete}); the order of pack writes relative to the index write is OBSERVED (packs read at the index-mutation instant through a recording KV), and so is the order of header rewrite and body release inside a remove (system-call trace of a child that removes blobs of six sizes): which removal subsets a process death can leave follows the code under test, it is not assumed; every diskpacked crash state is restarted twice: on the store's own index, and (the operator's recovery path) on a FRESH index rebuilt from the pack files with diskpacked.Reindex, the history continuing on the rebuilt index; plus index-ahead-of-pack states (row present, body cut short) that are judged only after the acknowledged retry of the upload; refs are sha224 mixed with sha1 and sha256; after each restart: journal maybe-map audit (fetch, subfetch, stat, enumerate, stream incl. resumption from continuation tokens), Reindex into a fresh index + audit of a store opened on it, continued history (re-do of the in-flight op - an in-flight remove is continued both by re-receive and by re-remove, an in-flight receive by retry and by retry-then-remove -, new blobs across a roll-over, removes, duplicate and re-receive), second audit and Reindex; both tiers also replay an strace of a child (localdisk, diskpacked) against per-file dirty bits: no receive may be acknowledged with un-fsynced blob data; thorough adds real SIGKILLs of a child process on the OS filesystem (incl. multi-MiB blobs whose write(2) a kill cuts short); distinct = (store, history, crash-point kind, offset class)",
+		"seeded receive/remove histories over <=13 blobs (empty blob, duplicate receive, remove + re-receive in every history); the LAST op is crashed at every point: files = every prefix of its VFS call trace (plus cuts inside each Write) x {un-synced data kept, dropped, zeroed} on an in-memory crash-modelling VFS; diskpacked (leveldb, kv and sqlite metaIndex, maxFileSize 2000) = crash directories materialised from a real before/after snapshot diff (every prefix of the appended record for records <=256 B, else header boundaries +-2 and 16 body cuts; index before/after; with/without next pack on roll-over; every order-consistent and, counted separately, every power-loss subset of {header rewrite (also torn), body zeroing (prefixes), index row delete}); the order of pack writes relative to the index write is OBSERVED (packs read at the index-mutation instant through a recording KV), and so is the order of header rewrite and body release inside a remove (system-call trace of a child that removes blobs of six sizes): which removal subsets a process death can leave follows the code under test, it is not assumed; every diskpacked crash state is restarted twice: on the store's own index, and (the operator's recovery path) on a FRESH index rebuilt from the pack files with diskpacked.Reindex, the history continuing on the rebuilt index; plus index-ahead-of-pack states (row present, body cut short) that are judged only after the acknowledged retry of the upload; refs are sha224 mixed with sha1 and sha256; after each restart: journal maybe-map audit (fetch, subfetch, stat, enumerate, stream incl. resumption from continuation tokens), Reindex into a fresh index + audit of a store opened on it, continued history (re-do of the in-flight op - an in-flight remove is continued both by re-receive and by re-remove, an in-flight receive by retry and by retry-then-remove -, new blobs across a roll-over, removes, duplicate and re-receive), second audit and Reindex, and last a Reindex(overwrite) attempt on the store's LIVE index (succeeding or failing) after which every acknowledged blob served before it must still be served; both tiers also replay an strace of a child (localdisk, diskpacked) against per-file dirty bits: no receive may be acknowledged with un-fsynced blob data; thorough adds real SIGKILLs of a child process on the OS filesystem (incl. multi-MiB blobs whose write(2) a kill cuts short); distinct = (store, history, crash-point kind, offset class)",
 		run)
 }
 
@@ -75,6 +75,7 @@ func run(r *ev.Run) {
 	r.Assume("signatures name the view, the crash-state kind and phase AND the blob the failure is about relative to the crash (inflight / new = touched after the restart / old / junk ref) plus the form of wrong bytes (truncated / zeroed / garbled); a Reindex failure is placed relative to the crashed record; the kv index-lag finding is only granted when the pack files agree with the journal about the blob")
 	r.Assume("index-ahead-of-pack states (index row present, record body cut short) are not produced by a process death here (the row is observed to be written after the record is synced): what the store shows before the retry is not judged, only that an ACKNOWLEDGED retry of the upload leaves the blob intact")
 	r.Assume("a removal state counts as reachable by a process death (no power-loss/ prefix) iff it is a prefix of an OBSERVED sequence of the three effects: index row vs pack content from the recording KV of that very operation, header rewrite vs body release from the strace of the diskpacked child (first occurrence of each effect; one order per run unless removes of different sizes show different orders, then either); evidence: observed_order, observed_pack_write_order, pack_write_order_source")
+	r.Assume("recovery attempt on the LIVE index: at the end of every diskpacked case the store is stopped and diskpacked.Reindex(overwrite) is run on the index the store uses (pk reindex-diskpacked -overwrite), then the store is started again; judged is only that each acknowledged, non-removed blob a view (fetch, stat, enumerate) served intact before the attempt is served intact by that view after it, whether the rebuild returned nil (reindex-inplace-lost/) or an error (reindex-failed-then-lost/); what a rebuild may add is judged on the fresh index only")
 	r.Assume("a StreamBlobs error is judged only through its consequence (an acknowledged blob not streamed); errors at a torn tail after all present blobs were delivered are counted")
 	scratch := ev.Scratch("c03")
 	defer os.RemoveAll(scratch)
@@ -197,7 +198,8 @@ func run(r *ev.Run) {
 		r.Require("events", "syscall-order-localdisk", "syscall-order-diskpacked-leveldb", "remove-pack-order-observed")
 	}
 	r.Require("events", "torn-header", "torn-body", "roll-over-crash", "roll-over-while-continuing", "reindex-run", "torn-header-rewrite",
-		"continued-on-rebuilt-index", "index-ahead-retry", "retry-then-remove")
+		"continued-on-rebuilt-index", "index-ahead-retry", "retry-then-remove", "inplace-reindex-ok", "inplace-reindex-failed")
+	r.Require("inplace_reindex_failed_in", "torn-body-then-append", "torn-header-then-append")
 	r.Require("restart_modes", "rebuilt", "ahead")
 	r.Require("restarts_rebuilt", "torn-header", "torn-body", "full-noindex", "full-indexed", "remove-header", "remove-header-zeroed", "remove-complete", "remove-index-only")
 	r.Require("ref_hashes", "sha1", "sha224", "sha256")
